@@ -139,7 +139,7 @@ def env(flavour='plain', repo=None, extra=None):
         os.makedirs(os.path.join(CACHE, 'asan'), exist_ok=True)
         e['VERIF_ASAN_LOG'] = os.path.join(CACHE, 'asan', 'log-%d' % os.getpid())
         e['ASAN_OPTIONS'] = 'detect_leaks=0:halt_on_error=0:allocator_may_return_null=1:' \
-                            'detect_odr_violation=0:suppress_equal_pcs=0:log_path=%s' % e['VERIF_ASAN_LOG']
+                            'detect_odr_violation=0:suppress_equal_pcs=0:quarantine_size_mb=16:log_path=%s' % e['VERIF_ASAN_LOG']
         e['PYTHONMALLOC'] = 'malloc'
     if extra:
         e.update(extra)
